@@ -1137,6 +1137,11 @@ func runHistCase(c *HistCase, prop string) (*caseOut, error) {
 			if merr != nil {
 				viol("C12", "MarshalJSON failed: "+merr.Error())
 			} else {
+				if masked, ok := e.maskPersisted(data); ok {
+					// the persisted TEXT itself against Model/JsonText.lean's `persistText` of the model's map
+					out.b.Add(tag+" text", line("bfs.persisttext"), line(masked))
+					out.count("reload.text-compared")
+				}
 				before := e.mapFields()
 				nb := e.newBFS()
 				if uerr := json.Unmarshal(data, nb); uerr != nil {
@@ -1308,6 +1313,44 @@ func (e *histEnv) linkLeadsIntoLocation(op Op) string {
 		return fmt.Sprintf("the new link really sits in %s and its target %q leads to %s, at or below the backup location %s", dir, t, eff, e.loc)
 	}
 	return ""
+}
+
+// fiMirror has the json layout of backupfs's unexported fInfo (same tags, same field order).
+type fiMirror struct {
+	FileName    string `json:"name"`
+	FileMode    uint32 `json:"mode"`
+	FileModTime int64  `json:"mod_time"`
+	FileSize    int64  `json:"size"`
+	FileUid     int    `json:"uid"`
+	FileGid     int    `json:"gid"`
+}
+
+// maskPersisted re-writes the text MarshalJSON produced with what the model cannot know zeroed (as
+// the driver's `bfs.persisttext` does on its side): sizes of directories and links, mtimes of links,
+// and instants stamped while the case runs.  Everything else — keys and their escaping, names, mode
+// bits, old mtimes, file sizes, owners, nil entries — is compared byte for byte.
+func (e *histEnv) maskPersisted(data []byte) (string, bool) {
+	var m map[string]*fiMirror
+	if json.Unmarshal(data, &m) != nil {
+		return "", false
+	}
+	for _, v := range m {
+		if v == nil {
+			continue
+		}
+		mode := fs.FileMode(v.FileMode)
+		if mode.IsDir() || mode&fs.ModeSymlink != 0 {
+			v.FileSize = 0
+		}
+		if mode&fs.ModeSymlink != 0 || e.rc.timeStr(time.Unix(0, v.FileModTime)) == "fresh" {
+			v.FileModTime = 0
+		}
+	}
+	out, err := json.Marshal(m)
+	if err != nil {
+		return "", false
+	}
+	return string(out), true
 }
 
 // checkBackupOnlyOriginals: "the backup filesystem never holds anything else: only copies of
